@@ -362,6 +362,20 @@ def run(prog, chk):
     chk.count("R6 (mode, bufsize) classes evaluated", ncase)
     chk.ob("R6.set-mode-flags", "_set_mode", bad is None, sm.loc, "%d cases%s" % (ncase, "" if bad is None else "; first failing: " + bad))
 
+    # ---- R3b ------------------------------------------------------------------------------------------------
+    # outside read / readline (which hand the bytes to the caller) the read buffer is only ever thrown away on a file that
+    # has positions - seek() of a subclass, or write() behind a seekable() test; a stream that drops what it has buffered
+    # loses those bytes for good
+    for mname, m_ in sorted(bf.methods.items()):
+        if mname in ("read", "readline", "__init__", "readlines", "__next__"):
+            continue
+        fm_ = Flow(prog, m_, implicit=False)
+        clears = fm_.nodes(lambda n: n.kind == "stmt" and isinstance(n.ast, ast.Assign) and any(unparse(t_) == RB for t_ in n.ast.targets))
+        for i_, n_ in enumerate(clears):
+            gs = fm_.edge_guard(lambda t_: unparse(t_) == "self.seekable()", "T")
+            chk.ob("R3.read-buffer-dropped-only-on-seekable-files", "%s#%d" % (mname, i_), fm_.dominated([n_], guard_edge=gs), fm_.where(n_),
+                   "%s in BufferedFile.%s %s" % (unparse(n_.ast), mname, "behind self.seekable()" if fm_.dominated([n_], guard_edge=gs) else "on every kind of file"))
+
     # ---- R7 -------------------------------------------------------------------------------------------------
     # The pending-CR latch: whoever tests it against the next byte consumes it.  In every function, a block entered
     # under a test of a boolean latch attribute that is set True elsewhere in the class must clear the latch on every
